@@ -5,7 +5,8 @@ INFO = {
     "rule": "Repeat algebra: call-sequence length and constructor enumerated, the u64 state and every op "
             "choice symbolic. VectorSource: data length, repeat mode, stream capacity and consumption "
             "schedule enumerated, sample values symbolic.",
-    "bounds": "Repeat: all u64 initial counts, all op sequences (again/done/count) of length <= 3. ",
+    "bounds": "Repeat: all u64 initial counts, all op sequences (again/done/count) of length <= 3. VectorSource<u8>: data length 0..2*cap+1, "
+              "repeat in {0,1,2,3,infinite}, capacity 1..2, three consumption schedules per shape; emission count, EOF point, per-repetition tags.",
     "outside": "FileSource and SigMFSource (file I/O); call sequences longer than 3 (count overflow needs 2^64 calls).",
     "stubs": ["std::fmt::format -> empty String"],
     "assumptions": ["Kani/CBMC soundness", "dev profile (overflow checks on, as in release for this crate)"],
@@ -22,5 +23,32 @@ def all_harnesses():
     return hs
 
 
+def rl(xs):
+    return "&[" + ", ".join(map(str, xs)) + "]"
+
+
+def vsrc_harnesses():
+    hs = []
+    for cap in (1, 2):
+        for ln in range(0, 2 * cap + 2):
+            for rep in (0, 1, 2, 3):
+                total = ln * rep
+                if total > 12:
+                    continue
+                n_calls = total // cap + rep + 3
+                for di, dr in enumerate(([cap] * n_calls, [1] * (total + rep + 3), [0, 0] + [cap] * n_calls)):
+                    core = cap == 2 and ((ln, rep) in ((3, 2), (5, 1), (2, 0), (0, 2), (1, 3))) and di in (0, 1)
+                    hs.append(Harness(f"c16_vsrc_c{cap}_l{ln}_r{rep}_d{di}", f"crate::c12::vector_source({ln}, {rep}, {cap}, {rl(dr)})",
+                                      unwind=28, unit="VectorSource::work", timeout=1200,
+                                      shape={"cap": cap, "len": ln, "repeat": rep, "drains": dr}, core=core))
+    for cap in (1, 2):
+        for ln in (1, 2, 3):
+            for di, dr in enumerate(([cap] * 5, [1, 0, 1, cap, 1, 1])):
+                hs.append(Harness(f"c16_vsrc_inf_c{cap}_l{ln}_d{di}", f"crate::c09::vector_source({ln}, {cap}, {rl(dr)}, true)", unwind=12,
+                                  unit="VectorSource::work (infinite)", shape={"cap": cap, "len": ln, "repeat": "infinite", "drains": dr},
+                                  core=(cap == 2 and ln == 2), timeout=900))
+    return hs
+
+
 def harnesses(tier, seed):
-    return select(all_harnesses(), tier, seed, 0)
+    return select(all_harnesses() + vsrc_harnesses(), tier, seed, 4)
